@@ -337,7 +337,30 @@ func c14(c *Ctx) {
 			}
 			cons := "page loop in " + shortName(f) + " #" + itoa2(instrIndexIn(pcs, pc))
 			if ph == nil {
-				r.Und("C14.W5", cons, p.Pos(posOf(pc.Call)), "protection change is not addressed by a loop variable")
+				// single-call form: must start at PageStart(addr) and its length must account for both the offset of addr in its page and the write length
+				startOK := false
+				for _, a := range origins(pc.Addr) {
+					if cl, ok := a.V.(*ssa.Call); ok {
+						if strings.HasSuffix(strings.ToLower(calleeName(cl.Common())), "pagestart") && resolveLocal(cl.Call.Args[0]) == ssa.Value(f.Params[0]) {
+							startOK = true
+						}
+						if strings.HasSuffix(calleeName(cl.Common()), "RawAccess") {
+							for _, a2 := range origins(cl.Call.Args[0]) {
+								if c2, ok := a2.V.(*ssa.Call); ok && strings.HasSuffix(strings.ToLower(calleeName(c2.Common())), "pagestart") && resolveLocal(c2.Call.Args[0]) == ssa.Value(f.Params[0]) {
+									startOK = true
+								}
+							}
+							if pc.Len == nil {
+								pc.Len = cl.Call.Args[1]
+							}
+						}
+					}
+				}
+				lenOK := pc.Len != nil && len(f.Params) >= 2 &&
+					dependsOn(pc.Len, func(v ssa.Value) bool { return v == ssa.Value(f.Params[0]) }) &&
+					dependsOn(pc.Len, func(v ssa.Value) bool { return v == ssa.Value(f.Params[1]) })
+				r.Check(startOK && lenOK, "C14.W5", cons, p.Pos(posOf(pc.Call)), "single protection change over [PageStart(addr), addr+len)",
+					"the protection change is neither a page loop over [PageStart(addr), addr+len) nor a single call whose length accounts for the offset of addr inside its page: a write that starts a few bytes before a page end leaves the second page unprotected-for-write (fault mid-copy) or writable afterwards")
 				continue
 			}
 			okStart, okStep, okCond := false, false, false
